@@ -4,7 +4,7 @@
  * built through the public API, transformed, written and re-read; a tropical-semiring evaluator on the
  * arc lists is the oracle.  DESIGN.md H6.
  *
- * usage: mc_fsg --states N --arcs A [--shard i/n] [--case "<descriptor>"]
+ * usage: mc_fsg --states N --arcs A | --family eps4 [--shard i/n] [--case "<descriptor>"]
  */
 #include "../engine/mc.h"
 #include "refgram.h"
@@ -24,7 +24,7 @@ static const float SILPROB = 0.005f;
 
 typedef struct {
     int n, start, final, narcs, lwi;
-    int from[8], to[8], label[8], pi[8]; /* label -1 eps, 0 a, 1 b; pi index into PROBS */
+    int from[16], to[16], label[16], pi[16]; /* label -1 eps, 0 a, 1 b; pi index into PROBS */
 } spec_t;
 
 static void
@@ -423,7 +423,57 @@ main(int argc, char **argv)
         mc_finish();
         return 0;
     }
-    {
+    if (strcmp(mc_arg(argc, argv, "--family", "all"), "eps4") == 0) {
+        /* the null-transition family: 4 states, every ordered pair of distinct states carries no null arc, one of
+         * probability 0.5 or one of probability 1e-8 (3^12 graphs, every labelling and so every processing order of the
+         * closure), plus one word arc so that the language is not empty */
+        long long g, total = 531441;
+        int exhaustive = 1;
+        for (g = shard; g < total; g += nshard) {
+            long long c = g;
+            int i, j;
+            if ((g & 1023) == 0 && mc_past_deadline()) {
+                exhaustive = 0;
+                break;
+            }
+            memset(&s, 0, sizeof s);
+            s.n = 4;
+            s.start = 0;
+            s.final = 3;
+            for (i = 0; i < 4; i++)
+                for (j = 0; j < 4; j++) {
+                    int v;
+                    if (i == j)
+                        continue;
+                    v = (int)(c % 3);
+                    c /= 3;
+                    if (v) {
+                        s.from[s.narcs] = i;
+                        s.to[s.narcs] = j;
+                        s.label[s.narcs] = -1;
+                        s.pi[s.narcs] = v; /* PROBS[1] = 0.5, PROBS[2] = 1e-8 */
+                        s.narcs++;
+                    }
+                }
+            s.from[s.narcs] = 3;
+            s.to[s.narcs] = 3;
+            s.label[s.narcs] = 0;
+            s.pi[s.narcs] = 0;
+            s.narcs++;
+            {
+                int rc = run_spec(&s);
+                evals++;
+                if (rc > 0)
+                    nontriv++;
+                if ((evals & (evals - 1)) == 0 && evals >= 256) {
+                    char cd[512];
+                    spec_desc(&s, cd, sizeof cd);
+                    mc_sample("%s", cd);
+                }
+            }
+        }
+        mc_flag("exhaustive", exhaustive);
+    } else {
         int n, na, st, fi, lwi, t[8], i, ntypes;
         int exhaustive = 1;
         for (n = 1; n <= NS; n++) {
